@@ -606,14 +606,21 @@ Proof.
   destruct (lookup v s_CURRENT) as [b|] eqn:Ec.
   - destruct (beq b (meta_content fd)) eqn:Eb.
     + apply beq_eq in Eb. subst b. cbn [vapply_all fold_left]. split; [assumption|]. split; [reflexivity|tauto].
-    + rewrite vapply_all_app. split; [|split].
+    + destruct (try_current v s_CURRENT).
+      1: { rewrite vapply_all_app. split; [|split].
       * rewrite lookup_switch, beq_refl by assumption. reflexivity.
       * intros H1 H2 H3. rewrite lookup_switch by assumption.
         rewrite (beq_neq s_CURRENT m), (beq_neq (pend_name (fd_num fd)) m) by congruence.
         rewrite lookup_write_file. now rewrite (beq_neq s_CURRENT_bak m) by congruence.
       * rewrite lookup_switch by assumption. beq_case s_CURRENT m; [tauto|].
         destruct (beq (pend_name (fd_num fd)) m); [congruence|]. rewrite lookup_write_file.
-        beq_case s_CURRENT_bak m; tauto.
+        beq_case s_CURRENT_bak m; tauto. }
+      all: (split; [|split]);
+        [rewrite lookup_switch, beq_refl by assumption; reflexivity
+        |intros H1 H2 H3; rewrite lookup_switch by assumption;
+         now rewrite (beq_neq s_CURRENT m), (beq_neq (pend_name (fd_num fd)) m) by congruence
+        |rewrite lookup_switch by assumption; beq_case s_CURRENT m; [tauto|];
+         destruct (beq (pend_name (fd_num fd)) m); [congruence|]; tauto].
   - split; [|split].
     + rewrite lookup_switch, beq_refl by assumption. reflexivity.
     + intros H1 H2 H3. rewrite lookup_switch by assumption.
